@@ -22,7 +22,7 @@ import mmdump
 import peggen
 
 SPEC_IMPORTS = ("From TxV Require Import Core.Base Core.Show Model.PegSyntax Model.Peg Model.PegShow Model.Build Model.Spec.\n"
-                "Open Scope string_scope.\n" + r"""
+                "From TxV Require Proofs.PegTerm.\nOpen Scope string_scope.\n" + r"""
 Fixpoint show_ext_tree (t : stree) : list string :=
   match t with
   | ST _ _ _ _ => []
@@ -57,7 +57,8 @@ Definition show_spec_build (g : grammar) (c : config) (mm : list ninfo) (tbl : l
   end.
 Definition show_wfg (g : grammar) (tbl : list ((nat * nat) * nat)) : string :=
   (if wfg g 24 then "T" else "F") ++
-  (if existsb (fun e => Nat.eqb (snd e) 0) tbl then "z" else "").
+  (if existsb (fun e => Nat.eqb (snd e) 0) tbl then "z" else "") ++
+  (if PegTerm.terminating PegTerm.none_nullable g then "t" else "").
 """)
 
 
@@ -141,13 +142,15 @@ def classify_dump(dump):
     nodes = dump["nodes"]
     if dump["comments"] is not None:
         tags.add("comments")
+    if any(nd["eolterm"] for nd in nodes) and any(nd["ws"] is not None for nd in nodes):
+        tags.add("eolterm_ws")         # eol_ws_ok: a rule-level ws inside an eolterm repetition is restored wrongly
     for nd in nodes:
         k, kids = nd["kind"], nd["kids"]
         live_root = nd["root"] and not nd["suppress"]
         if nd["sep"] is not None and k not in ("KStar", "KPlus"):
             tags.add("unordered_group" if k == "KUnord" else "malformed")
-        if nd["eolterm"]:
-            tags.add("eolterm")
+        if nd["eolterm"] and k not in ("KStar", "KPlus", "KOpt"):
+            tags.add("unordered_group" if k == "KUnord" else "malformed")
         if (nd["ws"] is not None or nd["skipws"] is not None) and k not in ("KSeq", "KChoice"):
             tags.add("malformed")
         if k == "KUnord":
@@ -433,7 +436,9 @@ def run(chk):
                 disagreements.append({"case": cinfo, "impl": im, "model": m})
             # ---- classifier consistency: the Python mirror of wfg is the Coq wfg
             wf_coq = mv[3].startswith("T")
-            zero = mv[3].endswith("z")
+            zero = "z" in mv[3]
+            if wf_coq and "t" in mv[3] and ii == 0:
+                chk.stat("grammars: wfg and terminating (C01_refinement_total applies)")
             if wf_coq != (not tags):
                 disagreements.append({"case": cinfo, "impl": sorted(tags), "model": "Coq wfg = %s" % mv[3]})
             ctags = sorted(tags) + (["empty_regex_match"] if zero else [])
